@@ -14,24 +14,39 @@ def fmix(n, ins):
     return None
 
 
+DEM = {}
+
+
 def graph_of(lines_before):
+    """-> dependency lists; the potential demand targets of each node are kept in graph_of.dem"""
     deps = []
+    dem = []
     for l in lines_before:
         w = l.split()
-        if w[0] == "node":
-            ds = [int(x) for x in w[1:]]
-            if all(d < len(deps) for d in ds):
+        if w[0] in ("node", "noded"):
+            toks = w[1:]
+            if "/" in toks:
+                k = toks.index("/")
+                ds, dm = [int(x) for x in toks[:k]], [int(x) for x in toks[k + 1:]]
+            else:
+                ds, dm = [int(x) for x in toks], []
+            if all(d < len(deps) for d in ds + dm):
                 deps.append(ds)
+                dem.append(dm)
         elif w[0] == "adddep":
             n, m = int(w[1]), int(w[2])
             if n < len(deps) and m < len(deps):
                 deps[n].append(m)
+    graph_of.dem = dem
     return deps
 
 
-def den(deps, fired):
-    """unique solution of the propagation equations, by recursion over the (acyclic) graph"""
+def den(deps, fired, dem=None):
+    """unique solution of the propagation equations, by recursion over the (acyclic) graph; a node with demand
+    targets reads them too when its first static dependency fired"""
     memo = {}
+    dem = dem or [[] for _ in deps]
+    den.demanded = {}
 
     def go(n, depth=0):
         if n in memo:
@@ -42,6 +57,9 @@ def den(deps, fired):
             v = fired.get(n)
         else:
             ins = [go(d, depth + 1) for d in deps[n]]
+            if dem[n] and ins and ins[0] is not None:
+                den.demanded[n] = list(dem[n])
+                ins = ins + [go(m, depth + 1) for m in dem[n]]
             v = fmix(n, ins)
             if n in fired and v is None:
                 v = fired[n]
@@ -62,20 +80,22 @@ def c03_oracle(lines, out):
         log = [int(x) for x in m.group(1).split()]
         fires = {int(a): int(b) for a, b in (x.split(":") for x in m.group(2).split())}
         deps = graph_of(lines[:k])
+        dem = graph_of.dem
         fired = {int(a): int(b) for a, b in (x.split(":") for x in op.split()[1:])}
-        want = den(deps, fired)
+        want = den(deps, fired, dem)
+        alld = [list(deps[n]) + den.demanded.get(n, []) for n in range(len(deps))]
         for n, w in enumerate(want):
             if fires.get(n) != w:
                 return ("step %d (%s): node %d ended the transaction with firing %s, the consistent value computed "
                         "from all its settled inputs is %s (glitch: stale, partial or lost result)" % (k + 1, op, n, fires.get(n), w))
         if len(set(log)) != len(log):
             return "step %d (%s): a node's update ran more than once: log %s" % (k + 1, op, log)
-        should = {n for n in range(len(deps)) if deps[n] and any(want[d] is not None for d in deps[n])}
+        should = {n for n in range(len(deps)) if deps[n] and any(want[d] is not None for d in alld[n])}
         if set(log) != should:
             return "step %d (%s): updates ran for %s, nodes with a changed input are %s" % (k + 1, op, sorted(log), sorted(should))
         pos = {n: i for i, n in enumerate(log)}
         for n in log:
-            for d in deps[n]:
+            for d in alld[n]:
                 if d in pos and pos[d] > pos[n]:
                     return "step %d (%s): node %d was evaluated before its input %d had settled" % (k + 1, op, n, d)
     return None
@@ -131,7 +151,12 @@ def random_dag_scripts(seed, count, nmax):
             now = [d for d in ds if rng.random() < 0.5]
             later = [d for d in ds if d not in now]
             deps[v] = now + later
-            lines.append("node " + " ".join(map(str, now)) if now else "node")
+            cand = [m for m in range(v) if m not in ds and deps[m]]   # demand derived nodes (like an inner cell)
+            if now and cand and rng.random() < 0.25:
+                dm = rng.sample(cand, min(len(cand), rng.choice([1, 1, 2])))
+                lines.append("noded " + " ".join(map(str, now)) + " / " + " ".join(map(str, dm)))
+            else:
+                lines.append("node " + " ".join(map(str, now)) if now else "node")
             for d in later:
                 lines.append(("L", v, d))
         late = [x for x in lines if isinstance(x, tuple)]
@@ -152,7 +177,8 @@ class C03(Prop):
     pid = "C03"
     extra_props = ["Refine"]
     level_text = ("Theorem C03_glitch_free over Model/Engine.v: for every acyclic raw graph, every dependents registration order, "
-                  "every set and order of fired sources, propagation terminates, each node with a changed input is updated exactly once "
+                  "every set and order of fired sources, also with nodes that DEMAND other nodes from inside their update (switch_c's nested "
+                  "update_node2), propagation terminates, each node with a changed input is updated exactly once "
                   "after all its inputs settled, final firings equal the denotation, independent of all orders. Tie: update log (order "
                   "included) and final firings of the real engine equal the model's on all DAGs up to the tier's size and random DAGs. "
                   "FRP-level programs over such shapes are covered by the spec correspondence of C02/C13.")
